@@ -425,6 +425,41 @@ class Runner:
                     lib=self.libcache[key], stderr=r.stderr[-300:].decode('latin1'), rawlog=rawlog)
 
 
+def _plain(self, sc, n):
+    """n untraced runs of the real binary; returns the distinct final trees as [(final, how often, exit status)]"""
+    root0 = os.path.dirname(self.ctx.path('c20', 'p%d-%d' % (os.getpid(), next(self.counter)), 'x'))
+    materialise(root0, sc['tree'])
+    with self.lock:
+        if id(sc) not in self.libcache:
+            self.libcache[id(sc)] = lib_obs(self.ctx, self.exe, root0, sc)
+    shutil.rmtree(root0, ignore_errors=True)
+
+    def one(k):
+        root = '%s-%d' % (root0, k)
+        materialise(root, sc['tree'])
+        try:
+            r = subprocess.run([self.cli] + sc['argv'], cwd=root, input=bytes(sc['stdin']), capture_output=True, timeout=60)
+        except subprocess.TimeoutExpired:
+            raise vlib.Infra('plain run timed out: %s' % sc['argv'])
+        final = snapshot(root)
+        shutil.rmtree(root, ignore_errors=True)
+        return final, r.returncode
+
+    with ThreadPoolExecutor(max_workers=4) as ex:
+        res = list(ex.map(one, range(n)))
+    seen = {}
+    for final, rc in res:
+        key = json.dumps(final, sort_keys=True)
+        if key in seen:
+            seen[key][1] += 1
+        else:
+            seen[key] = [final, 1, rc]
+    return [tuple(v) for v in seen.values()]
+
+
+Runner.plain = _plain
+
+
 def trace_of(run_id, sc, res):
     """events of one run as trace lines"""
     scj = dict(tree=sc['tree'], inv=sc['inv'], stdin=sc['stdin'])
@@ -578,14 +613,19 @@ def run(ctx):
         # three parallel workers over three tasks (fault-free, invariants only)
         vlib.tlc_mc(ctx, 'CliFs', 'CliFs_w3.cfg', workers=min(8, vlib.JOBS), heap='4g', timeout=3000)
     c19.tick(ctx, 'design model checked')
+    # wrong designs must be found wrong (vacuity guards), and the design-level witness of the open finding
     ctx.coverage['design_counterexamples'] = dict(
-        stale_bak_clobbered_OthersUntouched=design_counterexample(ctx, 'CliFs_bak.cfg', 'OthersUntouched'),
-        bak_is_an_input_NeverLost=design_counterexample(ctx, 'CliFs_bakinput.cfg', 'NeverLost'))
+        old_protocol_stale_bak_clobbered_OthersUntouched=design_counterexample(ctx, 'CliFs_bak.cfg', 'OthersUntouched'),
+        old_protocol_bak_is_an_input_NeverLost=design_counterexample(ctx, 'CliFs_bakinput.cfg', 'NeverLost'),
+        old_protocol_alias_leaves_backup_NoLeftoverBackup=design_counterexample(ctx, 'CliFs_oldalias.cfg', 'NoLeftoverBackup'),
+        head_protocol_two_workers_race_for_bak_name_NeverLost=design_counterexample(ctx, 'CliFs_bakinput_fixed.cfg', 'NeverLost'))
+    if not quick:
+        vlib.tlc_mc(ctx, 'CliFs', 'CliFs_bakinput_fixed2.cfg', workers=2, timeout=600)      # proposed patch fixes/C20-2 holds at design level
     # scenarios -> plans (TLC) -> complete scenarios
     S = scenarios(ctx)
     pinned = vlib.known_cases(PID)
     for c in pinned:
-        S.append(dict(name='pinned', seq=True, pinned=True,
+        S.append(dict(name='pinned', seq=True, pinned=True, repeat=int(c.get('repeat', 0)),
                       sc=dict(tree=c19.tree_from_ident(c['tree']), inv=c['inv'], stdin=c19.s2b(c.get('stdin', '')))))
     reqs = [dict(sc=s['sc']) for s in S]
     for i, r in enumerate(reqs):
@@ -595,11 +635,24 @@ def run(ctx):
         p = plans[i]
         if p['unspec'] or p['hazard']:
             raise vlib.Infra('scenario %s is not determined by the documentation: %s %s' % (s['name'], p['unspec'], p['hazard']))
-        if set(p['known']) - {'alias'} and not s.get('pinned'):
+        if p['known'] and not s.get('pinned'):
             raise vlib.Infra('scenario %s contains a known-defect construct' % s['name'])
         c19.complete(s['sc'], p, ctx.rnd)
     c19.tick(ctx, 'plans rendered')
     runner = Runner(ctx, exe, cli)
+    # witnesses of a race between the tool's own workers: not traced (strace changes the timing and the order of two
+    # threads' calls on one file is ambiguous in its log) but simply run many times; every distinct tree left on disk is
+    # judged by the same predicates (NeverLost / ReadOnly ON DISK)
+    R = [s for s in S if s.get('repeat')]
+    S = [s for s in S if not s.get('repeat')]
+    rep_runs = []
+    for ri, s in enumerate(R):
+        outcomes = runner.plain(s['sc'], s['repeat'])
+        for oi, (final, cnt, rc) in enumerate(outcomes):
+            rid = 'rep-%d-%d' % (ri, oi)
+            rep_runs.append((rid, [dict(ev='init', run=rid, sc=dict(tree=s['sc']['tree'], inv=s['sc']['inv'], stdin=s['sc']['stdin']),
+                                        lib=runner.libcache[id(s['sc'])]),
+                                   dict(ev='snap', run=rid, final=final, fuzzy=True)], s, cnt, rc))
     jobs = []                    # (scenario index, inject tuple, kind)
     # reference runs first (they define the boundaries)
     with ThreadPoolExecutor(max_workers=min(8, vlib.JOBS)) as ex:
@@ -655,7 +708,15 @@ def run(ctx):
         if res['killed']:
             kills_done += 1
             kill_points.add((j[0], len(res['events'])))
-    rejected, nlines = validate(ctx, runs, 'main')
+    rejected, nlines = validate(ctx, runs + [(rid, lines) for rid, lines, _, _, _ in rep_runs], 'main')
+    for rid, lines, s, cnt, rc in rep_runs:
+        if rid in rejected:
+            whys = rejected.pop(rid)
+            sc = s['sc']
+            ctx.report(ident(sc, ('repeat',)), '%s  => in %d of %d plain runs: status %d, on disk {%s}  REJECTED: %s' % (
+                c19.describe(sc), cnt, s['repeat'], rc,
+                ', '.join('%s(%d bytes)' % (c19.b2s(e['p']), len(e['c'])) for e in lines[-1]['final'] if e['k'] != 'd'), '; '.join(whys)),
+                replay_obj=dict(scenario=sc, inject=[], repeat=s['repeat']))
     c19.tick(ctx, 'validated %d states of %d runs, %d rejected' % (nlines, len(runs), len(rejected)))
     # every rejected run is repeated in a fresh process (up to 3 times: parallel workers are scheduled differently each time)
     reproduced = 0
@@ -691,8 +752,8 @@ def run(ctx):
         distinct_nontrivial=len(kill_points) + len(refs),
         rule='a case is one run of the real binary under strace (scenario, injection); every event of its log is one state in which '
              'TLC evaluates NeverLost/ReadOnly (evaluations = states). non-trivial = distinct (scenario, number of file-system events '
-             'before the kill) pairs actually killed, plus the reference runs. Known-defect constructs (stale <name>.bak next to a '
-             'file minified onto itself) are left to pinned witnesses.',
+             'before the kill) pairs actually killed, plus the reference runs. One known-defect construct is left to a pinned witness: '
+             'the backup name <src>.bak of a file minified onto itself is a source/destination of another task of the same parallel run.',
         samples=['%s: minify %s' % (s['name'], ' '.join(s['sc']['argv'])) for s in S[:6]],
         invocation_shapes=shapes, reference_runs=len(refs), injected_runs=len(jobs), runs_killed=kills_done,
         distinct_kill_points=len(kill_points), fault_runs=sum(1 for j in jobs if j[2] != 'kill'),
